@@ -231,7 +231,8 @@ def generate(rng, tier, focus):
         return {"focus": focus, "ops": ops, "final_newline": fn}
     ops, fn = gen_itp(rng, tier, rich=False)
     lim = rng.choice([None, None, None, 250, 400])
-    return {"focus": focus, "ops": ops, "final_newline": fn, "reclimit": lim}
+    return {"focus": focus, "ops": ops, "final_newline": fn, "reclimit": lim,
+            "how": rng.choice(["path", "path", "path", "upper_ext", "open_file", "forced_format"])}
 
 
 def abbreviate(trace):
@@ -305,15 +306,26 @@ def execute(trace, ctx):
         ctx.op("load", "invalid-trace")
         return
     d = ctx.tmpdir()
-    path = os.path.join(d, "mol.itp")
+    how = trace.get("how", "path")
+    path = os.path.join(d, {"upper_ext": "MOL.ITP", "forced_format": "mol.top_like"}.get(how, "mol.itp"))
     with open(path, "w") as f:
         f.write(render(trace["ops"], trace.get("final_newline", True)))
     n = len(truth["atoms"])
     seam = FileSeam(ctx)
     with seam:
         try:
-            name, atoms_info, bonds = read_topology(path)
-            mt = MoleculeTop(path)
+            if how == "open_file":
+                with open(path) as fh:
+                    name, atoms_info, bonds = read_topology(fh)
+                with open(path) as fh:
+                    mt = MoleculeTop(fh)
+                ctx.probe("loaded_from_open_file")
+            elif how == "forced_format":
+                name, atoms_info, bonds = read_topology(path, file_format="itp")
+                mt = MoleculeTop(path, file_format="itp")
+            else:
+                name, atoms_info, bonds = read_topology(path)
+                mt = MoleculeTop(path)
         except Exception as e:
             ctx.op("load", "raised")
             ctx.violate(P, "load-raised", f"loading a well-formed topology raised {type(e).__name__}: {e}", key=type(e).__name__)
